@@ -27,12 +27,12 @@ def run(ctx):
         ctx.differential("c15", 0, nontrivial=nt)
         return
     quick = ctx.tier == "quick"
-    ctx.differential("c15", 3000 if quick else 80000, extra=["-exec", "24" if quick else "300", "-execdir", "exec"], nontrivial=nt)
+    ctx.differential("c15", 3000 if quick else 150000, extra=["-exec", "24" if quick else "400", "-execdir", "exec"], nontrivial=nt)
     if not quick:
         base = ctx.seed
         for k in (1, 2):
             ctx.seed = base * 1000003 + k
-            ctx.differential("c15", 30000, extra=["-exec", "150", "-execdir", f"exec{k}"], tag=f"-s{k}", nontrivial=nt)
+            ctx.differential("c15", 50000, extra=["-exec", "200", "-execdir", f"exec{k}"], tag=f"-s{k}", nontrivial=nt)
         ctx.seed = base
     try:
         ctx.coverage["oracle_AsmBP"] = json.load(open(os.path.join(ctx.dir, "asmbp", "summary.json")))
